@@ -34,8 +34,9 @@ def abstract(s):
 class Canon:
     """canonical rendering of one function body"""
 
-    def __init__(self, P, F, alias_params=True):
+    def __init__(self, P, F, alias_params=True, alias_locals=True):
         self.P, self.F = P, F
+        self.alias_locals = alias_locals
         self.alias = {}
         for i, p in enumerate(F.params):
             self.alias[p] = ("p%d" % i) if alias_params else P.d(p).get("n", "p%d" % i)
@@ -45,6 +46,8 @@ class Canon:
         if key in self.alias:
             return self.alias[key]
         st = d.get("storage")
+        if st in ("local", "param", "static_local") and not self.alias_locals:
+            return d.get("n", "?")
         if st in ("local", "param", "static_local"):
             self.nloc += 1
             self.alias[key] = "v%d" % self.nloc
